@@ -29,6 +29,7 @@ from sim import world as W
 from sim.tape import Tape
 
 PROP = "C14"
+NONDETERMINISM_IS_VIOLATION = True     # "same inputs => same bytes": see sim/driver.py
 R = W.SIMROOT
 REPO = os.environ.get("VERIF_REPO", "/repo")
 import gtwrap.matlab_wrapper.wrapper as _mlw  # noqa: E402  (the tree under test, first on sys.path)
@@ -59,7 +60,7 @@ PROBES = ["switch_inside_mkdir_window", "crash_between_wrapper_cpp_writes", "tor
           "submodule_stem_with_dot_i", "submodule_h_extension", "cwd_is_source_dir",
           "crash_in_open_write_window", "second_run_over_existing_outputs",
           "mkdir_race_lost_after_isdir_false", "xml_store_changed_between_calls", "hashseed_varied_build",
-          "hashseed_build_with_2plus_submodules"]
+          "hashseed_build_with_2plus_submodules", "inputs_named_relative_to_cwd"]
 
 
 def batches(tier):
@@ -255,6 +256,16 @@ def gen_build(tape):
                      "--ignore"] + (["--use-boost-serialization"] if tape.bool(0.15, "ml-boost") else []),
             "outdir": outdir, "srcs": paths, "tpl": None, "xml": "",
         })
+    # some invocations name their inputs relative to their working directory
+    for t in sc["tasks"]:
+        if tape.bool(0.25, "relative-inputs"):
+            a = t["argv"]
+            i = a.index("--src") + 1
+            a[i] = ";".join(os.path.relpath(p, t["cwd"]) for p in a[i].split(";"))
+            if "--template" in a:
+                j = a.index("--template") + 1
+                a[j] = os.path.relpath(a[j], t["cwd"])
+            t["relative_inputs"] = True
     sc["n_stale"] = tape.weighted([3, 2, 1], "n-stale")
     sc["stale_sel"] = [tape.choose(1000, "stale-sel") for _ in range(sc["n_stale"] * 2)]
     return sc
@@ -422,7 +433,8 @@ class BuildObserver:
             return True
         # PybindWrapper.wrap() is given all files of the module but reads only the first; reading the
         # others as well would still be "its inputs"
-        src_arg = spec["argv"][spec["argv"].index("--src") + 1].split(";")
+        src_arg = [os.path.normpath(os.path.join(spec["cwd"], p))
+                   for p in spec["argv"][spec["argv"].index("--src") + 1].split(";")]
         return path in src_arg
 
     def __call__(self, w, ev):
@@ -549,6 +561,8 @@ def run_build(tape, ctx):
                 w.probe("submodule_h_extension")
             if s["cwd"] == R + "/src":
                 w.probe("cwd_is_source_dir")
+        if s.get("relative_inputs"):
+            w.probe("inputs_named_relative_to_cwd")
         if s["kind"] == "ml" and s["locale"] == "ascii" and \
                 any(any(b > 127 for b in sc["inputs"][p]) for p in s["srcs"]):
             w.probe("ascii_locale_nonascii_input")
